@@ -248,3 +248,33 @@ Print Assumptions rescale_down_error_at_most_half_unit.
 Theorem add_nonnegative_never_decreases a b : 0 <= val b -> val a <= val (add a b).
 Proof. exact (add_monotone a b). Qed.
 Print Assumptions add_nonnegative_never_decreases.
+
+(* ---- compare is a total order on what the amounts denote, and it drops no decimals ---- *)
+
+Theorem compare_is_antisymmetric a b : compare b a = - compare a b.
+Proof. exact (compare_antisym a b). Qed.
+Print Assumptions compare_is_antisymmetric.
+
+Theorem compare_is_transitive a b c :
+  (compare a b = -1 -> compare b c = -1 -> compare a c = -1) /\
+  (compare a b = 0 -> compare b c = 0 -> compare a c = 0).
+Proof. exact (conj (compare_lt_trans a b c) (compare_eq_trans a b c)). Qed.
+Print Assumptions compare_is_transitive.
+
+(* the outcome depends on the denoted rationals only, whatever precisions carry them *)
+Theorem compare_depends_on_value_only a a' b b' :
+  (toQ a == toQ a')%Q -> (toQ b == toQ b')%Q -> compare a b = compare a' b'.
+Proof. exact (compare_compat a a' b b'). Qed.
+Print Assumptions compare_depends_on_value_only.
+
+(* raising the precision of either operand, independently, never changes the outcome *)
+Theorem compare_unchanged_by_raising_precision a b e e' :
+  (exp a <= e)%nat -> (exp b <= e')%nat -> compare (rescale a e) (rescale b e') = compare a b.
+Proof. exact (compare_rescale_up a b e e'). Qed.
+Print Assumptions compare_unchanged_by_raising_precision.
+
+(* an argument that exceeds the receiver by one unit of ANY finer precision compares as larger:
+   the argument's extra decimals are never rounded away (seeded change C05-9) *)
+Theorem compare_sees_argument_decimals a n : compare a (mkA (val a * pow10 (S n) + 1) (exp a + S n)) = -1.
+Proof. exact (compare_sees_finer_decimals a n). Qed.
+Print Assumptions compare_sees_argument_decimals.
